@@ -53,6 +53,9 @@ package middlewares
 
 //@ func VerifyPresignedV4Signature$1
 //@   let hashGiven = ctx.Get("X-Amz-Content-Sha256") != "" && !utils.IsSpecialPayload(ctx.Get("X-Amz-Content-Sha256"))
+// a presigned upload declared chunk-encoded is not passed on (no decoder is installed on this path: the framing would be stored)
+//@   at-call fiber.Ctx.Next {C06,C12} [a-presigned-upload-passed-on-is-not-chunk-encoded] when ctx.Query("X-Amz-Signature") != "" && utils.IsBigDataAction(ctx) :: \
+//@        requires !utils.IsStreamingPayload(ctx.Get("X-Amz-Content-Sha256"))
 //@   at-call fiber.Ctx.Next {C06} [a-payload-hash-sent-with-a-presigned-upload-is-checked] when ctx.Query("X-Amz-Signature") != "" && utils.IsBigDataAction(ctx) && hashGiven :: \
 //@        requires ncalls("middlewares.wrapBodyReader") == 2
 //@   at-call fiber.Ctx.Next {C02} [next-only-when-authenticated] requires ctx.Query("X-Amz-Signature") == "" \
